@@ -439,6 +439,7 @@ decided by exhaustive evaluation of the guard over environment x {no, some tagge
     // (checked implicitly by the cells; reported separately for diagnosis)
 
     choice_override(m, ctx, &ev, &render);
+    nested_choice_override(m, ctx);
     coverage(m, ctx, apply_fn, &pass_fns, &sites);
     auto_tags(m, ctx, &ev);
     header_flow(m, ctx, "C03.header");
@@ -574,6 +575,30 @@ fn load_ref(ctx: &mut Ctx) -> Reference {
         ctx.fail_closed("C03.tables", &format!("reference table has {} cells, expected 12", cells.len()));
     }
     Reference { cells }
+}
+
+/// C03.choice (nested positions): X.680 31.2.7 c) makes a tag explicit when the tagged type is an untagged CHOICE or open type,
+/// whatever keyword or module default — for a component, an alternative, an element and a type assignment whose type is a
+/// *reference* to such a type just as for `T ::= [5] CHOICE { .. }` (which generate_choice handles). Somewhere between parsing
+/// and rendering the tag's environment has to be forced to Explicit depending on the *tagged type*: every place of the crate
+/// that builds or assigns an explicit environment is listed, and at least one of them must look at a component's / alternative's
+/// type or at the definitions map (a reference has to be resolved to know that it names a CHOICE).
+fn nested_choice_override(m: &Model, ctx: &mut Ctx) {
+    ctx.oblige("C03.choice", "nested-positions", true);
+    let mut forcing: Vec<(String, bool)> = vec![];
+    for f in m.fns.iter().filter(|f| f.krate == "rasn-compiler" && !f.module.contains("tests")) {
+        let b = tok(&f.block);
+        if b.contains("environment:TaggingEnvironment::Explicit") || b.contains(".environment=TaggingEnvironment::Explicit") || b.contains("environment=TaggingEnvironment::Explicit") {
+            // does it decide per tagged component / alternative / referenced type?
+            let per_position = (b.contains(".members") || b.contains(".options") || b.contains("element_type") || b.contains("tlds")) && f.name != "generate_choice";
+            forcing.push((f.key.clone(), per_position));
+        }
+    }
+    ctx.sample(json!({"explicit_forcing_sites": forcing.iter().map(|(k, p)| format!("{} (per position: {})", k, p)).collect::<Vec<_>>()}));
+    if !forcing.iter().any(|(_, p)| *p) {
+        ctx.violate("C03.choice", "nested-positions-never-forced-explicit", "rasn-compiler/src/intermediate/mod.rs", 0,
+            &format!("a tag is forced explicit for a CHOICE only in {:?} (the type assignment `T ::= [5] CHOICE {{ .. }}`): in a module with IMPLICIT or AUTOMATIC TAGS `d [3] Cc` (Cc ::= CHOICE), `e [4] CHOICE {{ .. }}`, an alternative `inner [2] Cc`, `F ::= [5] Cc`, `val [1] CLS.&Type` and `A ::= [8] ANY` are all emitted as `tag(context, n)` — implicit — where X.680 31.2.7 c) makes them explicit", forcing.iter().map(|(k, _)| k.rsplit("::").next().unwrap_or(k).to_string()).collect::<Vec<_>>()));
+    }
 }
 
 /// X: a tag on a top-level CHOICE is rendered explicit whenever the backend environment is not Explicit.
